@@ -4,7 +4,8 @@ M1 (interval algebra): real AddSegment/RemoveSegment/PurgeSegments/UpdateRegion/
 objects, the update function being a harness closure that returns the case's own segments.
 M2 (calendar): the real LegacyTimePeriod::ScriptFunc under TZ=UTC / Europe/Berlin / America/New_York /
 Australia/Lord_Howe, windows on and around DST transition days; the UTC-offset table the model uses is
-computed here from the zoneinfo database and checked against libc by vdrive (tp_tz)."""
+computed here from the zoneinfo database and checked against libc by vdrive (tp_tz).  The model parses the
+day definition / time range STRINGS itself (Tp/TpParse.v); ast= / tr= are the printer's cross-check."""
 import random, itertools, datetime, bisect
 
 try:
@@ -22,17 +23,22 @@ RULE = ('M1: every sequence of <=2 (quick) / <=3 (thorough) AddSegment/RemoveSeg
         'before/inside/after valid_end; IsInside probed at every grid point and its neighbours, the is_inside attribute under the virtual clock. '
         'M2: every day-specification form (date, month day, day N, negative days, weekday, n-th weekday, n-th weekday of month, ranges, strides) '
         'x {one range, two ranges, 24:00 end, wrap past midnight, >24h end} x 4 time zones x windows of 1 h..3 d placed on and around DST '
-        'transition days; IsInside probed at every range boundary +-1 s and on a 30-minute grid. '
+        'transition days; IsInside probed at every range boundary +-1 s and on a 30-minute grid; '
+        'm2-month-name: every form that names a month, seen from windows in the named month, the month before/after, at month ends and around Feb 28/29 of 2034/2035/2036; '
+        'm2-nth-transition: n-th weekday searches walking over every transition day of every zone; m2-mktime: libc mktime against the table model before/at/inside/after every skipped and repeated hour; '
+        'm2-parse-*: 126 hand-made corner strings and mutated printed strings through config validation (accepted/rejected, code against the parser model), odd but accepted strings evaluated. '
         'non-trivial = at least one observed state with a segment and both inside and outside probes; distinct = distinct script text')
 TRUSTED = ['model: coq/Tp/TpModel.v (transcription of timeperiod.cpp 41-301), coq/Tp/TpCal.v (transcription of legacytimeperiod.cpp '
-           'ParseTimeSpec/ParseTimeRange/IsInTimeRange/FindNthWeekday/ProcessTimeRange*/ScriptFunc on the parsed form)',
-           'string parsing of day definitions / time ranges is glue: the generator prints string and parsed form, the code parses the string, the model reads the parsed form',
+           'IsInTimeRange/FindNthWeekday/ProcessTimeRange*/ScriptFunc on the parsed form), coq/Tp/TpParse.v (transcription of ParseTimeRange/ParseTimeSpec/ProcessTimeRanges on byte strings)',
+           'which of the two known forms IsInTimeRange\'s day number and ScriptFunc\'s day loop have is read from the source text by tools/facts_c08.py (string match on the comment-stripped function bodies)',
+           'the generator prints string and parsed form; the parsed form the model and the oracle use comes from the parser model applied to the string; the printed parsed form is only cross-checked (oracle class parse-roundtrip)',
            "libc's time zone database: the offset table given to the model is computed from /usr/share/zoneinfo by Python and compared with localtime_r by vdrive in every case (tp_tz)",
-           'mktime for local times inside a skipped/repeated DST hour is modelled after observed glibc behaviour and not used by any theorem (range boundaries are restricted to local times that exist once)']
+           'mktime for local times inside a skipped/repeated DST hour is modelled after observed glibc behaviour (compared in family m2-mktime, libc primed with the local time two days earlier) and not used by any theorem (range boundaries are restricted to local times that exist once)']
 ASSUMPTIONS = ['times are whole seconds (exact in binary64)',
-               'local midnight exists exactly once on every day of the window (true for the four zones used)',
+               'local midnight exists exactly once on every day the loops ask about (true for the four zones used; checked by computation per case: tp_cal_hyps_ok)',
                'range boundaries are local times that exist exactly once on the days of the window (the property\'s own restriction); generated time-of-day boundaries avoid 01:00-03:00 in zones with DST',
-               'periods referenced by includes/excludes are updated before the referencing period, for the same window']
+               'periods referenced by includes/excludes are updated before the referencing period, for the same window',
+               'numbers in generated strings stay below 2^31 in magnitude except for the listed overflow probes; n-th weekday numbers stay small (the search is linear in n); huge negative month days (boost::gregorian range errors) are not generated']
 
 MONTHS = ['january', 'february', 'march', 'april', 'may', 'june', 'july', 'august', 'september', 'october', 'november', 'december']
 WDAYS = ['sunday', 'monday', 'tuesday', 'wednesday', 'thursday', 'friday', 'saturday']
@@ -43,16 +49,21 @@ def hx(s):
     return s.encode().hex() if s else '-'
 
 
+def unhx(h):
+    return '' if h == '-' else bytes.fromhex(h).decode('utf-8', 'replace')
+
+
 # ----------------------------------------------------------------------------- time zones
 
 _ZT = {}
 
 
 def zone_table(zn):
-    """-> (base offset at LO, [(t, off)...]) over [T0-40d, T0+800d], from the zoneinfo database"""
+    """-> (base offset at LO, [(t, off)...]) over [T0-40d, T0+1100d] (2033-04 .. 2036-05, so that a leap-year
+    February lies inside), from the zoneinfo database"""
     if zn in _ZT:
         return _ZT[zn]
-    lo, hi = T0 - 40 * 86400, T0 + 800 * 86400
+    lo, hi = T0 - 40 * 86400, T0 + 1100 * 86400
     if zn == 'UTC' or zoneinfo is None:
         _ZT[zn] = (0, [], lo, hi)
         return _ZT[zn]
@@ -493,8 +504,258 @@ def gen_m2(rnd, tier):
             for nm in reversed(names):
                 lines.append('tp_upd name=%s b=%d e=%d clear=0' % (nm, we, we2))
         cases.append({'lines': lines, 'tags': {'family': fam, 'zone': zn, 'transition_window': bool(want_tr)}})
+    cases += gen_month_family(random.Random(rnd.random()), tier)
+    cases += gen_transition_families(random.Random(rnd.random()), tier)
+    cases += gen_parse_families(random.Random(rnd.random()), tier)
     cases += directed_m2()
     return cases
+
+
+# strings for the parser: hand-made corner cases of ParseTimeRange / ParseTimeSpec / ProcessTimeRanges ...
+PARSE_K = ['', ' ', 'monday', 'monday ', ' monday', 'monday  2', 'monday 2 ', 'monday 2 march extra', 'monday 2 marchx', 'Monday', 'MONDAY',
+           'mon', 'day', 'day ', 'day x', 'day 1.5', 'day +5', 'day -0', 'day 007', 'day 1 2 3', 'february', 'february 30', 'february 1 - 3',
+           'day 1 - 15', 'day 1 -15', 'day 1- 15', 'day 1 - ', 'day 1 -  15', ' - day 3', 'monday - friday', 'monday - 3', 'monday 1 - 3',
+           '2034-03-25', '2034-3-25', '2034-03-32', '2034-13-01', '2034-00-10', '2034-03-00', '20a4-03-25', '2034/03/25', '2034-03-25 / 2',
+           '2034-03-25/2', 'monday/2', 'monday / 2', 'monday /2', 'day 1 - 15 / 2', 'day 1 - 15 /', 'day 1 - 15 / x', 'day 1 - 15 / 2 / 3',
+           'day 1 - 15 / 0', 'day 1 - 15 / -2', 'day 1 - 15 /  3 ', 'day 1 - 15 / +3', 'day 1 - 15/2', 'monday 0', 'monday -0', 'monday 00',
+           'monday +0', 'monday +1', 'monday 1 march - friday 2 march', 'monday\t2', ' monday - friday ', 'day 99999999999999999999',
+           'day 9223372036854775807', 'day 9223372036854775808', 'day 4294967297', 'day 4294967296', 'monday 4294967298', 'day --1', 'day -',
+           'day +', 'february -1 - -1', 'february 10 - -1', 'day 5 - 2034-03-25', '2034-03-25 - 2034-03-31', '2034-03-25 - 31',
+           'march 1 - april', 'march 1 - april 5', 'tuesday 2 march - 3', 'sunday -1 october', 'saturday 5 february', 'day 31', 'day 0',
+           '-001-01-01', '+034-03-25', '0000-01-01', '9999-12-31', 'monday2', 'daY 1', 'day\t1', 'day 1 / 2', 'day 1/2', 'day 1 /2']
+PARSE_V = ['', '09:00', '09:00-', '-17:00', '09:00-17:00-18:00', '09:00 - 17:00', '09:00-17:00,', ',09:00-17:00', '09:00-17:00,,10:00-11:00',
+           '9:0-17:0', '09-17', '09:00:00:00-17:00', '09:00:30-17:00:15', '25:00-26:00', '09:60-10:00', '09:00-09:00', 'a:00-b:00', '+9:00-17:00',
+           '09:00-17:00 ', ' 09:00-17:00', '09:00-17:00;10:00-11:00', '24:00-24:00', '00:00-24:00', '09:00-17:00,18:00-19:00:30', '0x9:00-17:00',
+           '09:00-17:00,18:00', '09::00-17:00', ':-:', '1:2:3-4:5:6', '09:00-17:00, 18:00-19:00', '00:00-48:00', '22:00-06:00', '09.00-17.00']
+# ... and odd but ACCEPTED definitions, which are also evaluated (tp_range + tp_upd; the parsed form comes from the parser model only)
+LENIENT_K = ['day 1 2 3', 'day +5', 'day 007', 'monday 2 march extra', 'day 1- 15', 'day 1 -15', 'monday/2', ' monday - friday ', 'day 1 - 15 /  3 ',
+             'day 4294967297', 'day 4294967296', 'monday 4294967298', 'monday +1', 'february 30', 'day 1 - 15/2', 'day 1 - 15 / +3', 'day 1 - 15 / 0',
+             'day 1 - 15 / -2', 'february 10 - -1', 'february -1 - -1', 'tuesday 2 march - 3', 'day -0', 'day 0', '2034-03-25/2', 'day 1/2',
+             'monday 1 - 3', 'march 1 - april 5', '2034-03-25 - 2034-03-31']
+LENIENT_V = ['9:0-17:0', '09:00:30-17:00:15', '25:00-26:00', '09:60-10:00', '09:00-09:00', '+9:00-17:00', '24:00-24:00', '1:2:3-4:5:6', '00:00-48:00',
+             '22:00-06:00', '00:00-24:00']
+
+
+def mutate(rnd, t):
+    if not t:
+        return rnd.choice(' -/:0x')
+    i = rnd.randrange(len(t))
+    r = rnd.random()
+    if r < 0.2:
+        return t[:i] + t[i + 1:]                                        # drop a character
+    if r < 0.45:
+        return t[:i] + rnd.choice(' -/:0x+1,\t') + t[i:]                  # insert one
+    if r < 0.55:
+        return t[:i] + t[i].upper() + t[i + 1:]
+    if r < 0.65:
+        return t[:i]                                                    # truncate
+    if r < 0.75:
+        return t + rnd.choice((' ', ' x', ' 1', ' march', '-', '/', ' / 2'))
+    if r < 0.85:
+        return t.replace(' ', '  ', 1)
+    if r < 0.95:
+        j = rnd.randrange(len(t))
+        return t[:min(i, j)] + t[max(i, j):]                            # cut a piece out
+    return ' ' + t
+
+
+def gen_parse_families(rnd, tier):
+    out = []
+
+    def esc(x):
+        return x.replace('\\t', '\t')
+    # 1. config validation of one ranges entry: accepted / rejected, code against the parser model (error vs. error)
+    for k in PARSE_K:
+        out.append({'lines': ['now %d' % T0, 'tp_parse k=%s' % hx(esc(k))], 'tags': {'family': 'm2-parse-corner', 'parse_part': 'daydef'}})
+    for v in PARSE_V:
+        out.append({'lines': ['now %d' % T0, 'tp_parse k=%s v=%s' % (hx('monday'), hx(v))], 'tags': {'family': 'm2-parse-corner', 'parse_part': 'timeranges'}})
+    n = {'quick': 300, 'thorough': 4000, 'search': 1500}.get(tier, 300)
+    for i in range(n):
+        zn = 'UTC'
+        anchor = T0 + rnd.randint(5, 700) * 86400
+        if rnd.random() < 0.5:
+            f, l, _ = rand_range_def(rnd, zn, anchor)
+            k, _ = daydef(f, l, rnd.choice((1, 1, 2, 3)), rnd)
+        else:
+            sp, _, _ = rand_spec(rnd, zn, anchor)
+            k, _ = daydef(sp)
+        v = times_str(rand_times(rnd, zn, rnd.choice(('one', 'two', 'to24', 'wrap', 'over24'))), rnd)
+        which = rnd.random()
+        if which < 0.6:
+            for _ in range(rnd.choice((1, 1, 2))):
+                k = mutate(rnd, k)
+            part = 'daydef'
+        elif which < 0.9:
+            for _ in range(rnd.choice((1, 1, 2))):
+                v = mutate(rnd, v)
+            part = 'timeranges'
+        else:
+            part = 'unmutated'
+        out.append({'lines': ['now %d' % T0, 'tp_parse k=%s v=%s' % (hx(k), hx(v))], 'tags': {'family': 'm2-parse-mutated', 'parse_part': part}})
+    # 2. odd but accepted definitions, evaluated
+    reps = {'quick': 3, 'thorough': 12, 'search': 6}.get(tier, 3)
+    for _ in range(reps):
+        for k in LENIENT_K:
+            zn = rnd.choice(ZONES)
+            v = rnd.choice(LENIENT_V + ['09:00-17:00'] * 4)
+            if v in ('25:00-26:00', '1:2:3-4:5:6'):
+                zn = 'UTC'                                   # boundaries between 01:00 and 03:00: not on a transition day
+            # eight-day windows over the end of February, the second week and the end of March 2034: every definition
+            # of the list matches in at least one of them
+            y, m, d = rnd.choice(((2034, 2, rnd.randint(24, 27)), (2034, 3, rnd.randint(8, 10)), (2034, 3, rnd.randint(22, 24))))
+            wb = mk_local(zn, days_from_civil(y, m, d) * 86400) + rnd.choice((0, 3600 * 6, 43200))
+            we = wb + 8 * 86400
+            lines = ['now %d' % T0, tz_line(zn, wb - 5 * 86400, we + 5 * 86400),
+                     'tp_pts ' + ','.join(str(p) for p in cal_probes(zn, wb, we, [(0, 86400), (32400, 61200)])), 'tp_new name=a',
+                     'tp_range name=a k=%s v=%s' % (hx(k), hx(v)), 'tp_upd name=a b=%d e=%d clear=1' % (wb, we)]
+            out.append({'lines': lines, 'tags': {'family': 'm2-parse-lenient', 'zone': zn}})
+    return out
+
+
+def transitions(zn):
+    """[(instant, offset before, offset after)] of the zone's table that lie after T0"""
+    base, tab, _, _ = zone_table(zn)
+    out = []
+    o = base
+    for ti, oi in tab:
+        if ti >= T0 + 2 * 86400:
+            out.append((ti, o, oi))
+        o = oi
+    return out
+
+
+def gen_transition_families(rnd, tier):
+    """what the theorems leave to the comparison, aimed at EVERY transition of EVERY zone that has one:
+       m2-mktime          libc's mktime against tp_tab_mk for local times before / at / inside / after every skipped or
+                          repeated hour (the oracle only asks that an exactly-once local time is mapped to its instant)
+       m2-nth-transition  n-th weekday specifications whose day-by-day search (forward from the 1st, backward from the
+                          last day of the month) walks over the transition day, windows around the day found"""
+    import calendar
+    out = []
+    reps = {'quick': 1, 'thorough': 4, 'search': 2}.get(tier, 1)
+    for zn in ZONES:
+        for ti, ob, oa in transitions(zn):
+            lo, hi = ti + min(ob, oa), ti + max(ob, oa)
+            kind = 'skipped' if oa > ob else 'repeated'
+            for _ in range(reps):
+                ls = [lo - 86400, lo - 1, lo, lo + 1, (lo + hi) // 2, rnd.randint(lo, hi - 1), hi - 1, hi, hi + 1, hi + 86400,
+                      lo - lo % 86400, lo - lo % 86400 + 86400] + [rnd.randint(lo - 2 * 86400, hi + 2 * 86400) for _ in range(6)]
+                out.append({'lines': ['now %d' % T0, tz_line(zn, ti - 5 * 86400, ti + 5 * 86400), 'tp_mk l=' + ','.join(str(x) for x in ls)],
+                            'tags': {'family': 'm2-mktime', 'zone': zn, 'mk_kind': kind, 'mk_inside': sum(1 for x in ls if lo <= x < hi)}})
+            # the local date of the transition
+            Dt = datetime.date(1970, 1, 1) + datetime.timedelta(days=(ti + ob) // 86400)
+            dim = calendar.monthrange(Dt.year, Dt.month)[1]
+            for _ in range(2 * reps):
+                for direction in ('forward', 'backward'):
+                    if direction == 'forward':
+                        cand = [d for d in range(Dt.day, dim + 1)]           # found on or after the transition day
+                    else:
+                        cand = [d for d in range(1, Dt.day + 1)]             # found on or before it, counting from the end
+                    if not cand:
+                        continue
+                    day = rnd.choice(cand)
+                    tgt = datetime.date(Dt.year, Dt.month, day)
+                    wd = (tgt.weekday() + 1) % 7
+                    nth = (day - 1) // 7 + 1 if direction == 'forward' else -((dim - day) // 7 + 1)
+                    with_month = rnd.random() < 0.5
+                    first = ('w', wd, nth, Dt.month - 1 if with_month else -1)
+                    last = None
+                    if rnd.random() < 0.3:
+                        last = ('w', (wd + rnd.randint(0, 2)) % 7, nth, Dt.month - 1 if with_month else -1)
+                    s_, a_ = daydef(first, last, 1, rnd)
+                    d0 = days_from_civil(tgt.year, tgt.month, tgt.day)
+                    # keep the window inside the month when the month is taken from the reference day
+                    wb = mk_local(zn, max(d0 - rnd.choice((0, 1)), days_from_civil(Dt.year, Dt.month, 1)) * 86400) + rnd.choice((0, 3600 * 7, 43200))
+                    we = min(wb + rnd.choice((86400, 2 * 86400)), mk_local(zn, days_from_civil(Dt.year, Dt.month, dim) * 86400 + 86399))
+                    if we <= wb:
+                        we = wb + 3600
+                    trs = rand_times(rnd, zn, rnd.choice(('one', 'allday', 'to24')))
+                    lines = ['now %d' % T0, tz_line(zn, wb - 5 * 86400, we + 5 * 86400),
+                             'tp_pts ' + ','.join(str(p) for p in cal_probes(zn, wb, we, trs)), 'tp_new name=a',
+                             range_line('a', s_, a_, trs, rnd), 'tp_upd name=a b=%d e=%d clear=1' % (wb, we)]
+                    out.append({'lines': lines, 'tags': {'family': 'm2-nth-transition', 'zone': zn, 'nth_direction': direction,
+                                                        'nth_crosses_transition': True}})
+    return out
+
+
+def gen_month_family(rnd, tier):
+    """day definitions that NAME a month (<month> N, <month> -N, <month> N - <month> M, <month> N - M, with and without
+    stride, n-th weekday of a named month incl. negative n), evaluated over windows that lie in the named month, in the
+    month before / after it, across its boundaries and around Feb 28/29 of leap and non-leap years.  The day numbers
+    are taken from the window's own first day, so an implementation that resolved the specification in the month being
+    evaluated instead of the named month would match inside the window."""
+    import calendar
+    out = []
+    n = {'quick': 360, 'thorough': 4000, 'search': 1500}.get(tier, 360)
+    forms = ['pos', 'neg', 'range', 'range', 'range-neg', 'range-cross', 'nth', 'nthneg', 'nth-range']
+
+    def shift_month(y, m, k):
+        m0 = (m - 1) + k
+        return y + m0 // 12, m0 % 12 + 1
+
+    for i in range(n):
+        zn = ZONES[i % 4]
+        # D = first local day of the window
+        r = rnd.random()
+        if r < 0.3:
+            y = rnd.choice((2034, 2035, 2036))                     # 2036 is a leap year
+            D = datetime.date(y, rnd.choice((2, 2, 3)), 1) + datetime.timedelta(days=rnd.choice((-3, -2, -1, 0, 26, 27, 28, 29)))
+            if D.month not in (1, 2, 3):
+                D = datetime.date(y, 2, 28)
+            where = 'feb-end'
+        else:
+            y, m = rnd.choice(((2033, rnd.randint(7, 12)), (2034, rnd.randint(1, 12)), (2035, rnd.randint(1, 12)), (2036, rnd.randint(1, 3))))
+            dim = calendar.monthrange(y, m)[1]
+            pos = rnd.choice(('first', 'last', 'last', 'mid', 'second-last'))
+            D = datetime.date(y, m, {'first': 1, 'last': dim, 'mid': rnd.randint(2, dim - 1), 'second-last': dim - 1}[pos])
+            where = 'month-' + pos
+        dim = calendar.monthrange(D.year, D.month)[1]
+        # the named month: the window's own month, the one before, the one after
+        k = rnd.choice((0, 0, -1, 1, -1, 1))
+        ny, nm = shift_month(D.year, D.month, k)
+        rel = {0: 'inside', -1: 'month-after-named', 1: 'month-before-named'}[k]
+        form = rnd.choice(forms)
+        wd = (D.weekday() + 1) % 7
+        nth, nthneg = (D.day - 1) // 7 + 1, -((dim - D.day) // 7 + 1)
+        neg = D.day - dim - 1                                          # D is the |neg|-th last day of its month
+        stride = rnd.choice((1, 1, 2, 3))
+        first, last = None, None
+        if form == 'pos':
+            first = ('m', nm - 1, D.day + rnd.choice((0, 0, 1)))
+            stride = 1
+        elif form == 'neg':
+            first = ('m', nm - 1, neg - rnd.choice((0, 0, 1)) if neg < -1 else neg)
+            stride = 1
+        elif form == 'range':
+            lo = max(1, D.day - rnd.randint(0, 4))
+            first, last = ('m', nm - 1, lo), ('m', nm - 1, min(31, D.day + rnd.randint(0, 4)))
+        elif form == 'range-neg':
+            first, last = ('m', nm - 1, max(1, D.day - rnd.randint(0, 6))), ('m', nm - 1, rnd.choice((-1, -1, -2, neg)))
+        elif form == 'range-cross':
+            y2, m2 = shift_month(ny, nm, 1)
+            if y2 != ny:
+                m2, nm = nm, nm - 1 if nm > 1 else nm           # "december N - january M" never matches; keep the range inside a year
+                m2 = nm + 1
+            first, last = ('m', nm - 1, max(1, D.day - rnd.randint(0, 6))), ('m', m2 - 1, rnd.randint(1, 6))
+        elif form == 'nth':
+            first = ('w', wd, nth, nm - 1)
+            stride = 1
+        elif form == 'nthneg':
+            first = ('w', wd, nthneg, nm - 1)
+            stride = 1
+        else:
+            first, last = ('w', wd, nth, nm - 1), ('w', (wd + rnd.randint(0, 3)) % 7, rnd.choice((nth, min(4, nth + 1), -1)), nm - 1)
+        s, a = daydef(first, last, stride, rnd)
+        d0 = days_from_civil(D.year, D.month, D.day)
+        wb = mk_local(zn, d0 * 86400) + rnd.choice((0, 0, 3600 * 5, 43200, 86399, 23 * 3600))
+        we = wb + rnd.choice((86400, 86400, 2 * 86400, 3 * 86400, 4 * 86400))
+        trs = rand_times(rnd, zn, rnd.choice(('one', 'allday', 'to24', 'two')))
+        lines = ['now %d' % T0, tz_line(zn, wb - 5 * 86400, we + 5 * 86400),
+                 'tp_pts ' + ','.join(str(p) for p in cal_probes(zn, wb, we, trs)), 'tp_new name=a',
+                 range_line('a', s, a, trs, rnd), 'tp_upd name=a b=%d e=%d clear=1' % (wb, we)]
+        out.append({'lines': lines, 'tags': {'family': 'm2-month-name', 'zone': zn, 'month_form': form, 'month_rel': rel, 'month_where': where,
+                                            'leap_feb': bool(D.year == 2036 and D.month in (2, 3) and where == 'feb-end')}})
+    return out
 
 
 def directed_m2():
@@ -505,8 +766,8 @@ def directed_m2():
     for s, a in (('monday 2', 'w.1.2.-1'), ('monday -1 may', 'w.1.-1.4'), ('february 3', 'm.1.3'), ('day -1', 'm.-1.-1'),
                  ('2034-03-26', 'd.2034.3.26'), ('day 1 - 15 / 2', 'm.-1.1~m.-1.15/2')):
         out.append({'lines': ['now %d' % T0, 'tp_parse k=%s ast=%s' % (hx(s), a)], 'tags': {'family': 'm2-directed-validate'}})
-    for s, a in (('monday 0', 'w.1.z.-1'), ('friday 0 march', 'w.5.z.2')):
-        out.append({'lines': ['now %d' % T0, 'tp_parse k=%s ast=%s limit=3' % (hx(s), a)], 'tags': {'family': 'm2-directed-validate-nth-zero'}})
+    for s in ('monday 0', 'friday 0 march'):
+        out.append({'lines': ['now %d' % T0, 'tp_parse k=%s limit=3' % hx(s)], 'tags': {'family': 'm2-directed-validate-nth-zero'}})
     # F-C08-b: Saturday 03:00 local, "friday" = "22:00-06:00", fresh window
     zn = 'Europe/Berlin'
     # 2033-06-04 is a Saturday
@@ -671,7 +932,29 @@ def extra_stats(cases, impl):
     for c in cases:
         names = {l.split('name=')[1].split()[0] for l in c['lines'] if l.startswith('tp_range ')}
         hyp_steps += sum(1 for l in c['lines'] if l.startswith('tp_upd ') and l.split('name=')[1].split()[0] in names)
+    per_zone = {}
+    for zn in ZONES:
+        zc = [c for c in cases if c['tags'].get('zone') == zn]
+        per_zone[zn] = {
+            'transitions_in_table_after_T0': len(transitions(zn)),
+            'day_loop_windows_placed_on_transition_days': sum(1 for c in zc if c['tags'].get('transition_window')),
+            'nth_weekday_searches_walking_over_a_transition_day': sum(1 for c in zc if c['tags'].get('nth_crosses_transition')),
+            'mktime_cases(one per transition)': sum(1 for c in zc if c['tags'].get('family') == 'm2-mktime'),
+            'mktime_queries_inside_a_skipped_hour': sum(c['tags'].get('mk_inside', 0) for c in zc if c['tags'].get('mk_kind') == 'skipped'),
+            'mktime_queries_inside_a_repeated_hour': sum(c['tags'].get('mk_inside', 0) for c in zc if c['tags'].get('mk_kind') == 'repeated'),
+            'named_month_cases': sum(1 for c in zc if c['tags'].get('family') == 'm2-month-name'),
+        }
+    mrel = collections.Counter(c['tags'].get('month_rel') for c in cases if c['tags'].get('family') == 'm2-month-name')
+    mform = collections.Counter(c['tags'].get('month_form') for c in cases if c['tags'].get('family') == 'm2-month-name')
     return {'zones': dict(zones), 'windows_on_dst_transition_days': trw,
+            'compared_only_per_zone': {
+                'what': 'not covered by a theorem and therefore aimed at every transition of every zone that has one: mktime for local times '
+                        'inside a skipped / repeated hour (libc primed with the local time two days earlier, against tp_tab_mk); proved only under '
+                        '"the local midnights asked about exist exactly once" and additionally compared here: the day loop and the n-th weekday '
+                        'search walking over a transition day (C08_day_loop_mktime, C08_nth_weekday_mktime)',
+                'zones': per_zone},
+            'named_month_family': {'window_relative_to_named_month': dict(mrel), 'forms': dict(mform),
+                                   'leap_year_february_windows': sum(1 for c in cases if c['tags'].get('leap_feb'))},
             'calendar_hypotheses_checked_by_computation': {
                 'what': 'per UpdateRegion on a LegacyTimePeriod period the oracle evaluates tp_cal_hyps_ok: the offset table is ascending with transitions >= 2 days apart and |offset| < 24 h (tp_tab_ok), and every local time mktime is asked about for the window (00:00 of the visited days, of the day after the last one and of each day definition\'s first / day-after-last day, both boundaries of every time range) exists exactly once and tp_tab_mk returns its instant (tp_tab_good_b); a failure is an oracle hit of class calendar-hypotheses',
                 'update_steps_checked': hyp_steps, 'failures': 'none unless an oracle hit of class calendar-hypotheses is reported'},
